@@ -54,6 +54,7 @@ def tmapT (π : Nat → Nat) : T → T
   | .iri n => .iri n
   | .lit n => .lit n
   | .bn b => .bn (π b)
+  | .skol n => .skol n
 
 def qmapT (π : Nat → Nat) (q : Quad) : Quad := (tmapT π q.1, tmapT π q.2.1, tmapT π q.2.2.1, tmapT π q.2.2.2)
 
